@@ -31,6 +31,34 @@ func durationConst(v ssa.Value) (int64, bool) {
 }
 
 func runC26(c *Ctx) {
+	c.Rule("C26.EXPIRY", "FLOW: the expiry NonceCache.Track stores for a nonce is the clock reading plus the TTL — it derives from Time.Add(ttl) (or now+ttl) and from no subtraction — so a tracked nonce stays in the cache for the whole retention")
+	if fn := c.P.Func("(*internal/cluster/security.NonceCache).Track"); fn != nil {
+		n := 0
+		for _, in := range instrs(fn, false) {
+			mu, ok := in.(*ssa.MapUpdate)
+			if !ok {
+				continue
+			}
+			if sn, fld, _, ok := loadedField(mu.Map); !ok || sn != "NonceCache" || fld != "entries" {
+				continue
+			}
+			n++
+			plusTTL := derives(mu.Value, func(v ssa.Value) bool {
+				if cl, ok := v.(*ssa.Call); ok && callName(cl) == "(time.Time).Add" {
+					if sn, fld, _, ok := loadedField(cl.Call.Args[1]); ok && sn == "NonceCache" && fld == "ttl" {
+						return true
+					}
+				}
+				return false
+			}, true, 8)
+			minus := derives(mu.Value, func(v ssa.Value) bool {
+				bo, ok := v.(*ssa.BinOp)
+				return ok && bo.Op == token.SUB
+			}, true, 8)
+			c.Check(plusTTL && !minus, "C26.EXPIRY", fmt.Sprintf("Track|stored-expiry#%d", n), mu.Pos(), "stored expiry = now.Add(ttl)", "the expiry stored for a nonce is not now+ttl (a subtraction or another base enters it): the entry counts as expired — and is evicted — before the retention has run out, so a replay inside the window is accepted")
+		}
+		c.Check(n >= 1, "C26.EXPIRY", "Track|stores", fn.Pos(), "store found", "no store into NonceCache.entries found in Track")
+	}
 	c.Rule("C26.NOW", "FLOW: the instant against which NonceCache expiries are compared when entries are evicted is the clock reading itself — it passes through no Time.Add / shift, so no nonce is forgotten before its retention ends (a replay of a still-fresh request would otherwise be accepted)")
 	{
 		n := 0
